@@ -774,7 +774,67 @@ def run_summary(req):
     return {"obs": obs[:5], "stats": stats}
 
 
+class BadReprMgr(Plain):
+    def __repr__(self):
+        raise ValueError("this manager cannot be described")
+
+
+def run_badchild(req):
+    """an exit stack one of whose registrations cannot be described (its manager's repr raises; a callback argument's repr
+    raises): the failure is reported, and every registration - also those made AFTER the failing one - still has its child"""
+    obs = []
+    regs = []
+
+    async def holder():
+        with ExitStack() as st:
+            for i, kind in enumerate(req["kinds"]):
+                if kind == "plain":
+                    m = Plain(i)
+                    st.enter_context(m)
+                elif kind == "badrepr":
+                    m = BadReprMgr(i)
+                    st.enter_context(m)
+                elif kind == "badarg":
+                    m = cb_fn
+                    st.callback(cb_fn, BadReprMgr(i))
+                else:
+                    m = cb_fn
+                    st.callback(cb_fn, i)
+                regs.append((kind, m))
+            await trap("body")
+
+    co = holder()
+    co.send(None)
+    try:
+        st = extract(co)
+    except BaseException as ex:
+        return {"obs": [{"kind": "raised", "exc": repr(ex)}], "stats": {}}
+    finally:
+        pass
+    ctx = st.frames[0].contexts[0] if st.frames and st.frames[0].contexts else None
+    nbad = sum(1 for k, _m in regs if k.startswith("bad"))
+    if ctx is None or len(ctx.children) != len(regs):
+        obs.append({"kind": "exit_stack_children_count", "got": None if ctx is None else len(ctx.children), "exp": len(regs),
+                    "kinds": req["kinds"], "error": repr(st.error)[:200]})
+    else:
+        for c, (kind, m) in zip(ctx.children, regs):
+            if kind in ("plain", "badrepr") and c.obj is not m:
+                obs.append({"kind": "exit_stack_child_obj", "got": type(c.obj).__name__})
+    if nbad and st.error is None:
+        obs.append({"kind": "description_failure_reported_nowhere"})
+    if not nbad and st.error is not None:
+        obs.append({"kind": "error", "exc": repr(st.error)})
+    try:
+        str(st)
+    except BaseException as ex:
+        obs.append({"kind": "format_raised", "exc": repr(ex)})
+    co.close()
+    return {"obs": obs, "stats": {"regs": len(regs)}}
+
+
 def handle(req):
+    if req["op"] == "ctxtree.badchild":
+        return run_badchild(req)
     op = req["op"]
     if op == "ctxtree.summary":
         return run_summary(req)
